@@ -6,6 +6,7 @@
 package opdrv
 
 import (
+	"context"
 	"encoding/json"
 	"fmt"
 	"io"
@@ -14,9 +15,11 @@ import (
 	"net/http/httptest"
 	"net/url"
 	"strings"
+	"time"
 
 	"golang.org/x/net/html"
 
+	"github.com/zitadel/oidc/v3/pkg/oidc"
 	"github.com/zitadel/oidc/v3/pkg/op"
 
 	"verif/internal/keys"
@@ -47,6 +50,10 @@ type Options struct {
 	Endpoints    *op.Endpoints // LegacyServer endpoints; nil = copy of the defaults
 	SigningKey   *keys.Key
 	Store        *vstore.Store // reuse an existing store
+	// WrapProvider, when set, puts an application-defined op.OpenIDProvider (embedding the real *op.Provider and
+	// overriding some of its methods) in front of both routers, the way an application customises e.g. the
+	// JWT-profile verifier
+	WrapProvider func(*op.Provider) op.OpenIDProvider
 }
 
 type World struct {
@@ -120,6 +127,11 @@ func NewWorld(opt Options) (*World, error) {
 	}
 	w.Handlers[RouterProvider] = p
 	w.Handlers[RouterLegacy] = op.RegisterLegacyServer(op.NewLegacyServer(p, eps), op.AuthorizeCallbackHandler(p), op.WithFallbackLogger(Discard))
+	if opt.WrapProvider != nil {
+		wp := opt.WrapProvider(p)
+		w.Handlers[RouterProvider] = op.CreateRouter(wp)
+		w.Handlers[RouterLegacy] = op.RegisterLegacyServer(op.NewLegacyServer(wp, eps), op.AuthorizeCallbackHandler(wp), op.WithFallbackLogger(Discard))
+	}
 	if u, err := url.Parse(opt.Issuer); err == nil {
 		w.Host = u.Host
 	}
@@ -388,3 +400,15 @@ func ParseFormPost(body string) (action string, inputs url.Values, forms int, er
 	}
 	return action, inputs, forms, err
 }
+
+// permissiveSubject is an application-defined provider whose JWT-profile verifier carries a custom subject check
+// that permits sub != iss (op.SubjectCheck, a documented option).
+type permissiveSubject struct{ *op.Provider }
+
+func (p permissiveSubject) JWTProfileVerifier(ctx context.Context) *op.JWTProfileVerifier {
+	return op.NewJWTProfileVerifier(p.Storage(), op.IssuerFromContext(ctx), time.Hour, time.Second,
+		op.SubjectCheck(func(*oidc.JWTTokenRequest) error { return nil }))
+}
+
+// PermissiveSubject is a WrapProvider function.
+func PermissiveSubject(p *op.Provider) op.OpenIDProvider { return permissiveSubject{p} }
